@@ -218,6 +218,8 @@ def zoned_rectangle_domain(length_x, length_y, n_x, n_y, transpose=False):
     n_i2 = 1
 
     z = zoned_rectangle(n_1, n_2, b_1, b_2, n_i1, n_i2)
+    if transpose:
+        z = transpose_coordinates(z)
     _zoned_rectangle_domain.append(z)
     field_descriptors.append(f"{n_1}X{n_2}_{n_i1}X{n_i2}_B1{b_1:0.2f}_B2{b_2:0.2f}")
 
